@@ -74,13 +74,22 @@ def make_loss(cfg):
     P = Params(nn_params=u.init_params(), eq_params={"a": jnp.array(1.0)})
     W = lambda w: (jnp.array(w) if isinstance(w, (list, tuple)) else float(w))
     kw = {}
+
+    def LW(cls, **fields):
+        """the weight container; with omit_unit_weights a field whose weight is 1 is left to its documented default,
+        and with no_lw (all weights 1) no container is passed at all"""
+        if cfg.get("omit_unit_weights"):
+            fields = {k: v for k, v in fields.items() if not (isinstance(v, float) and v == 1.0)}
+            if not fields and cfg.get("no_lw"):
+                return {}
+        return {"loss_weights": cls(**fields)}
     if cfg.get("dk"):
         kw["derivative_keys"] = make_dk(kind, P, cfg["dk"])
     if kind == "ode":
-        lw = jinns.loss.LossWeightsODE(dyn_loss=W(cfg.get("w_dyn", 1.0)), initial_condition=W(cfg.get("w_ic", 1.0)), observations=W(cfg.get("w_obs", 1.0)))
+        lw = LW(jinns.loss.LossWeightsODE, dyn_loss=W(cfg.get("w_dyn", 1.0)), initial_condition=W(cfg.get("w_ic", 1.0)), observations=W(cfg.get("w_obs", 1.0)))
         if cfg.get("ic"):
             kw["initial_condition"] = (cfg["ic"]["t0"], jnp.array(cfg["ic"]["u0"]))
-        L = jinns.loss.LossODE(u=u, dynamic_loss=Eq() if cfg.get("dyn", True) else None, params=P, loss_weights=lw, **kw)
+        L = jinns.loss.LossODE(u=u, dynamic_loss=Eq() if cfg.get("dyn", True) else None, params=P, **lw, **kw)
     else:
         if cfg.get("norm"):
             kw["norm_samples"] = jnp.array(cfg["norm"]["samples"]); kw["norm_int_length"] = cfg["norm"]["L"]
@@ -90,16 +99,16 @@ def make_loss(cfg):
             if b.get("dim") is not None:
                 kw["omega_boundary_dim"] = b["dim"]
         if kind == "statio":
-            lw = jinns.loss.LossWeightsPDEStatio(dyn_loss=W(cfg.get("w_dyn", 1.0)), norm_loss=W(cfg.get("w_norm", 1.0)),
+            lw = LW(jinns.loss.LossWeightsPDEStatio, dyn_loss=W(cfg.get("w_dyn", 1.0)), norm_loss=W(cfg.get("w_norm", 1.0)),
                                                  boundary_loss=W(cfg.get("w_bc", 1.0)), observations=W(cfg.get("w_obs", 1.0)))
-            L = jinns.loss.LossPDEStatio(u=u, dynamic_loss=Eq() if cfg.get("dyn", True) else None, params=P, loss_weights=lw, **kw)
+            L = jinns.loss.LossPDEStatio(u=u, dynamic_loss=Eq() if cfg.get("dyn", True) else None, params=P, **lw, **kw)
         else:
-            lw = jinns.loss.LossWeightsPDENonStatio(dyn_loss=W(cfg.get("w_dyn", 1.0)), norm_loss=W(cfg.get("w_norm", 1.0)), boundary_loss=W(cfg.get("w_bc", 1.0)),
+            lw = LW(jinns.loss.LossWeightsPDENonStatio, dyn_loss=W(cfg.get("w_dyn", 1.0)), norm_loss=W(cfg.get("w_norm", 1.0)), boundary_loss=W(cfg.get("w_bc", 1.0)),
                                                     observations=W(cfg.get("w_obs", 1.0)), initial_condition=W(cfg.get("w_ic", 1.0)))
             if cfg.get("ic"):
                 icp = cfg["ic"]["polys"]
                 kw["initial_condition_fun"] = lambda x: jnp.stack([poly_jax(p, x) for p in icp])
-            L = jinns.loss.LossPDENonStatio(u=u, dynamic_loss=Eq() if cfg.get("dyn", True) else None, params=P, loss_weights=lw, **kw)
+            L = jinns.loss.LossPDENonStatio(u=u, dynamic_loss=Eq() if cfg.get("dyn", True) else None, params=P, **lw, **kw)
     if cfg.get("reweight"):
         # the weight is replaced on the existing object (eqx.tree_at does not re-run __post_init__): the loss must use the weight it holds now
         w = cfg.get("w_dyn", 1.0)
